@@ -23,7 +23,9 @@
  *   annlist type ttag tref     ANannlist (array sized by ANnumann)                     -> ok n ref.. | fail
  *   tagref2id S tag ref        ANtagref2id -> slot S                                   -> ok | fail
  *   id2tagref S                ANid2tagref                                             -> ok tag ref | fail
- *   gettagref type idx         ANget_tagref                                            -> ok tag ref | fail
+ *   gettagref type idx         ANget_tagref, then ANid2tagref(ANselect(idx))          -> ok tag ref tag2 ref2 | fail
+ *   dffidlen F / dffdslen F    Hopen, DFANgetfidlen / DFANgetfdslen(isfirst F), DFANlastref, Hclose -> ok len ref | fail
+ *   dffid F maxlen / dffds ..  Hopen, DFANgetfid / DFANgetfds(buffer maxlen, isfirst F), DFANlastref -> ok n ref hex | fail
  *   endaccess S                ANendaccess                                             -> ok | fail
  *   ids                        over all live slots: ids <-> tag/ref one-to-one, ANtagref2id(ANid2tagref(id)) = id
  *                                                                                      -> ok <#distinct ids> | bad ..
@@ -235,7 +237,33 @@ static void run_history(const char *dir, long hno, char **lines, long *lnos, lon
         else if (!strcmp(op, "gettagref")) {
             sscanf(line, "%*s %ld %ld", &a, &b);
             uint16 t = 0, r = 0;
-            if (ANget_tagref(anid, (int32)b, (ann_type)a, &t, &r) == FAIL) printf(" fail\n"); else printf(" ok %d %d\n", (int)t, (int)r);
+            if (ANget_tagref(anid, (int32)b, (ann_type)a, &t, &r) == FAIL) printf(" fail\n");
+            else {   /* and what ANid2tagref(ANselect(index)) says about the same annotation */
+                uint16 t2 = 0, r2 = 0;
+                int32 id = ANselect(anid, (int32)b, (ann_type)a);
+                if (id == FAIL || ANid2tagref(id, &t2, &r2) == FAIL) printf(" ok %d %d -1 -1\n", (int)t, (int)r);
+                else printf(" ok %d %d %d %d\n", (int)t, (int)r, (int)t2, (int)r2);
+            }
+        }
+        else if (!strcmp(op, "dffidlen") || !strcmp(op, "dffdslen")) {     /* one length call of the enumeration */
+            sscanf(line, "%*s %ld", &a);
+            int32 f = Hopen(fname, DFACC_READ, 0);
+            if (f == FAIL) { printf(" fail\n"); continue; }
+            int32 l = !strcmp(op, "dffidlen") ? DFANgetfidlen(f, (int)a) : DFANgetfdslen(f, (int)a);
+            int lr = DFANlastref();
+            Hclose(f);
+            if (l < 0) printf(" fail\n"); else printf(" ok %d %d\n", (int)l, lr);
+        }
+        else if (!strcmp(op, "dffid") || !strcmp(op, "dffds")) {           /* one read call of the enumeration */
+            sscanf(line, "%*s %ld %ld", &a, &b);
+            int32 f = Hopen(fname, DFACC_READ, 0);
+            if (f == FAIL) { printf(" fail\n"); continue; }
+            unsigned char *buf = fresh(b);
+            int32 g = !strcmp(op, "dffid") ? DFANgetfid(f, (char *)buf, (int32)b, (int)a) : DFANgetfds(f, (char *)buf, (int32)b, (int)a);
+            int lr = DFANlastref();
+            Hclose(f);
+            if (g < 0) printf(" fail\n"); else { printf(" ok %d %d", (int)g, lr); phex(buf, b); printf("\n"); }
+            free(buf);
         }
         else if (!strcmp(op, "endaccess")) {
             sscanf(line, "%*s %ld", &a);
